@@ -15,6 +15,7 @@ import (
 	"strconv"
 	"strings"
 	"sync"
+	"sync/atomic"
 	"testing/synctest"
 	"time"
 )
@@ -32,6 +33,7 @@ type Cfg struct {
 	Timed   bool   `json:"timed"`
 	Mode    string `json:"mode"`
 	NilMatch bool  `json:"nilmatch"` // callers pass a nil matcher
+	CtxDeadline []int `json:"-"` // per caller: context deadline in units after the start of the run (0 = none)
 }
 
 type dgram struct {
@@ -46,6 +48,7 @@ type clientAPI interface {
 	// Call runs SendAndRead for transaction xid; verdict is asked for every packet handed to the matcher.
 	Call(ctx context.Context, xid int, verdict func(id int, isNil bool) bool, nilMatch bool, onReq func([]byte)) (id int, isNil bool, err error)
 	IDOf(p any) int
+	Prepare(ctx context.Context, xid int, verdict func(id int, isNil bool) bool, nilMatch bool, onReq func([]byte)) func() (int, bool, error)
 	Close() error
 	Classify(err error) string
 	Datagram(id, xid int, kind string) []byte
@@ -90,6 +93,9 @@ type Sim struct {
 	want        map[string][]byte
 	crashed     string
 	gated       bool
+	free        bool // free-running: hooks record, goroutines are never held (real parallelism)
+	goFlag      atomic.Bool
+	ready       sync.WaitGroup
 }
 
 var gateEvents = map[string]bool{"SendPreLock": true, "SendPreTx": true, "Wake": true, "CancelPre": true,
@@ -105,8 +111,9 @@ func goid() uint64 {
 
 func (s *Sim) now() int { return int(time.Since(s.epoch) / unit) }
 
-func (s *Sim) roleOf(ev string) string {
-	g := goid()
+func (s *Sim) roleOf(ev string) string { return s.roleOfG(goid()) }
+
+func (s *Sim) roleOfG(g uint64) string {
 	if r, ok := s.roles[g]; ok {
 		return r
 	}
@@ -120,11 +127,15 @@ func (s *Sim) hook(ev string, args ...any) {
 	if !s.gated {
 		return
 	}
+	if s.free && (ev == "SendPreLock" || ev == "SendPreTx" || ev == "LoopPreLock") {
+		return // pure park positions: nothing to record when nobody is parked
+	}
+	g := goid() // outside the harness mutex: keeps the hook from serialising the callers
 	s.mu.Lock()
-	role := s.roleOf(ev)
+	role := s.roleOfG(g)
 	s.raw = append(s.raw, rawEvent{role: role, ev: ev, args: args, t: s.now()})
 	var ch chan struct{}
-	if gateEvents[ev] {
+	if gateEvents[ev] && !s.free {
 		s.parked[role] = ev
 		ch = s.gates[role]
 		if ch == nil {
@@ -182,7 +193,7 @@ func (s *Sim) drain(released string) {
 	s.mu.Unlock()
 	var first, rest []rawEvent
 	for _, e := range raw {
-		if e.role == released {
+		if e.role == released && !s.free {
 			first = append(first, e)
 		} else {
 			rest = append(rest, e)
@@ -282,7 +293,12 @@ func (s *Sim) normalize(e rawEvent) {
 	case "Panic":
 		s.crashed = fmt.Sprint(e.args[0])
 		add("Crash", "who", e.role, "what", fmt.Sprint(e.args[0]))
-	case "SendPreLock", "SendPreTx", "LoopPreLock", "CloseDonePre":
+	case "CloseDonePre":
+		if s.free { // not a gate in free-running mode: the record itself marks close(c.done)
+			s.closeState = "done"
+			add("CloseDone")
+		}
+	case "SendPreLock", "SendPreTx", "LoopPreLock":
 		// park positions only
 	default:
 		add("Unknown", "ev", e.ev)
@@ -410,7 +426,14 @@ func (s *Sim) closeStart() {
 func (s *Sim) tick() {
 	time.Sleep(unit)
 	s.emit("Tick")
-	s.wait("")
+	synctest.Wait() // every timer of this instant has fired
+	for c := range s.ctxs { // contexts that ended by their own deadline at this instant
+		if !s.ctxDone[c] && s.ctxs[c].Err() != nil {
+			s.ctxDone[c] = true
+			s.emit("CtxCancel", "c", c+1)
+		}
+	}
+	s.drain("")
 }
 
 func (s *Sim) roleList() []string {
